@@ -55,6 +55,7 @@ type scenario struct {
 	Script []item
 	Plan   string // per application-callback invocation: 'n' nil, 'e' error (default nil)
 	Early  bool   // AlwaysAnnounceOnPublish
+	Clean  bool   // the client connects with a clean session (scripts without a connection loss only)
 	Fault  *connFault
 }
 
@@ -63,7 +64,11 @@ func (s scenario) String() string {
 	if s.Fault != nil {
 		f = fmt.Sprintf("conn%d:%v", s.Fault.Conn, s.Fault.F)
 	}
-	return fmt.Sprintf("%v plan=%q early=%t | %s", s.Script, s.Plan, s.Early, f)
+	cl := ""
+	if s.Clean {
+		cl = " clean-session"
+	}
+	return fmt.Sprintf("%v plan=%q early=%t%s | %s", s.Script, s.Plan, s.Early, cl, f)
 }
 
 func payload(it item) string { return fmt.Sprintf("m%d-id%d-q%d", it.N, it.ID, it.QoS) }
@@ -153,7 +158,7 @@ func run(r *h.Run, sc scenario) result {
 			srv.Log.Add(name, "callback", nil, "ACCEPT "+pl)
 			return nil
 		}
-		cfg := ch.Config(srv, "c10-client", false)
+		cfg := ch.Config(srv, "c10-client", sc.Clean)
 		cfg.AlwaysAnnounceOnPublish = sc.Early
 		cf, err := c.Connect(cfg)
 		cur = c
@@ -591,7 +596,7 @@ func interesting(sc []item) bool {
 func TestCheck(t *testing.T) {
 	r := h.New("C10", "fault_enumeration")
 	depth := r.Pick(3, 4)
-	r.Rule(fmt.Sprintf("all scripted-broker scripts of length <= %d over {PUBLISH q2(id 1,2), PUBLISH q2(1,dup), PUBLISH q1(1), PUBLISH q0, PUBREL(1,2), drop+resume} (plus sampled longer ones with 3 ids in thorough) all scripts of length <= 3 over {PUBLISH q1(1), PUBLISH q1(1,dup), PUBLISH q1(2,dup), drop+resume}, and scripts mixing the QoS 2 handshakes of ids 1,2 with flows of the application's own on the same client (Subscribe, Unsubscribe, Publish QoS 1, whose acknowledgements carry the same numeric ids) x callback plans {all nil, error at the 1st / 2nd / 3rd application callback, the application closing the client from another goroutine during the 1st / 2nd callback} x both callback timing modes, each first run without faults and then with every single client-side send fault (k-th Send of each connection, before/after: i.e. at every acknowledgement the client writes); a QoS 0 marker through the client's single processor fences every step; a completion phase retransmits PUBREL for every PUBREC without PUBCOMP. Oracle: model driven by what the client received (event log), callback invocations, acknowledgements written. Non-trivial = scripts with a complete or interrupted QoS 2 handshake; distinct by (script, plan, mode, fault)", depth))
+	r.Rule(fmt.Sprintf("all scripted-broker scripts of length <= %d over {PUBLISH q2(id 1,2), PUBLISH q2(1,dup), PUBLISH q1(1), PUBLISH q0, PUBREL(1,2), drop+resume} (plus sampled longer ones with 3 ids in thorough) all scripts of length <= 3 over {PUBLISH q1(1), PUBLISH q1(1,dup), PUBLISH q1(2,dup), drop+resume}, and scripts mixing the QoS 2 handshakes of ids 1,2 with flows of the application's own on the same client (Subscribe, Unsubscribe, Publish QoS 1, whose acknowledgements carry the same numeric ids) x callback plans {all nil, error at the 1st / 2nd / 3rd application callback, the application closing the client from another goroutine during the 1st / 2nd callback} x both callback timing modes, each first run without faults and then with every single client-side send fault (k-th Send of each connection, before/after: i.e. at every acknowledgement the client writes); a QoS 0 marker through the client's single processor fences every step; a completion phase retransmits PUBREL for every PUBREC without PUBCOMP; the scripts without a connection loss are run once more on a clean-session client. Oracle: model driven by what the client received (event log), callback invocations, acknowledgements written. Non-trivial = scripts with a complete or interrupted QoS 2 handshake; distinct by (script, plan, mode, fault)", depth))
 	r.Assume("exactly-once is asserted in the default callback mode only (announce-on-publish documents redelivery); deliveries the application rejects are not counted")
 	all := scripts(depth, 2)
 	rng := r.Rand("c10")
@@ -647,6 +652,24 @@ func TestCheck(t *testing.T) {
 		}
 	}
 	r.Count("base_scenarios", int64(len(base)))
+	// the same handshakes on a clean-session client: scripts that never lose the
+	// connection, callbacks that accept (what a PUBREL is answered with must not
+	// depend on the clean-session flag)
+	nclean := 0
+	for i, s := range all {
+		hasDrop := false
+		for _, it := range s {
+			if it.Kind == "drop" {
+				hasDrop = true
+			}
+		}
+		if hasDrop || (r.Quick() && len(s) == 3 && i%2 != 0) {
+			continue
+		}
+		base = append(base, scenario{Script: s, Plan: "", Early: i%3 == 0, Clean: true})
+		nclean++
+	}
+	r.Count("clean_session_scenarios", int64(nclean))
 	var nfault int64
 	var cmu sync.Mutex
 	h.Parallel(len(base), 16, func(i int) {
@@ -663,7 +686,7 @@ func TestCheck(t *testing.T) {
 		if i < 3 {
 			r.Sample(map[string]interface{}{"scenario": sc.String(), "client_sends_per_connection": res.sends})
 		}
-		if r.Quick() && i%4 != 0 {
+		if (r.Quick() && i%4 != 0) || sc.Clean {
 			return
 		}
 		for c, n := range res.sends {
